@@ -16,7 +16,44 @@ POINT_TYPES = {
 }
 
 
+_CG = {}
+
+
+def owner_class(fx, path, depth=0):
+    """Class of the code a function belongs to: a private helper (or closure / nested fn) that is only called from functions
+    of one class is part of that class (e.g. a helper the group law or an SSWU map was factored into)."""
+    import inline as INL
+    base = constructor_class_direct(fx, path)
+    if base is not None:
+        return base
+    f = fx.fn(path) or {}
+    if f.get('impl_trait') in ('CurveProjective', 'CurveAffine'):
+        return 'group-law'
+    if depth > 4:
+        return None
+    parent = None
+    if '::{closure' in path:
+        parent = path.split('::{closure', 1)[0]
+    if parent is None and not INL.is_private_helper(fx, path):
+        return None
+    cg = _CG.setdefault(id(fx), CallGraph(fx))
+    callers = set(cg.callers(path)) | ({parent} if parent else set())
+    callers.discard(path)
+    if not callers:
+        return None
+    classes = set(owner_class(fx, c_, depth + 1) for c_ in callers)
+    return classes.pop() if len(classes) == 1 else None
+
+
 def constructor_class(fx, path):
+    c_ = constructor_class_direct(fx, path)
+    if c_ is not None:
+        return c_
+    oc = owner_class(fx, path)
+    return oc
+
+
+def constructor_class_direct(fx, path):
     """Audited class of a function that builds a point from raw coordinates."""
     f = fx.fn(path)
     nm = f.get('name') or path.rsplit('::', 1)[-1]
@@ -92,7 +129,7 @@ def rule_who_constructs(fx, rep):
     allowed_traits = ('CurveProjective', 'CurveAffine')
     for p, tys in sorted(writers.items()):
         f = fx.fn(p)
-        ok = (f.get('impl_trait') in allowed_traits) or ('batch_normalization::{closure' in p) or ('::from_affine::doubling_step' in p) or ('::from_affine::addition_step' in p) \
+        ok = (f.get('impl_trait') in allowed_traits) or owner_class(fx, p) == 'group-law' or ('batch_normalization::{closure' in p) or ('::from_affine::doubling_step' in p) or ('::from_affine::addition_step' in p) \
             or constructor_class(fx, p) is not None or (f.get('impl_trait') in ('std::convert::From', 'zeroize::Zeroize', 'std::clone::Clone', 'std::default::Default'))
         rep.check(ok, 'WIRE', 'writes-coordinates:%s' % p, 'coordinate writes confined to the group-law implementation',
                   'writes coordinates of a %s outside the group-law implementation' % sorted(tys), f['span'], construct=p)
